@@ -3,7 +3,7 @@
 // none of the hook call sites are compiled.
 #![allow(dead_code)]
 
-use std::cell::Cell;
+use std::cell::{Cell, RefCell};
 
 thread_local! {
     // Number of times a memoized parsing function was entered (cache hits included).
@@ -14,6 +14,23 @@ thread_local! {
 
     // Number of times `open` or `signed_shift` reached an unresolved unifier.
     static HOLES_OPENED: Cell<u64> = const { Cell::new(0) };
+
+    // When recording is switched on: one record per result stored in the parser's memo table, in
+    // the order in which the parsing functions returned.
+    static MEMO_LOG: RefCell<Option<Vec<MemoRecord>>> = const { RefCell::new(None) };
+}
+
+// A result stored in the parser's memo table: which parsing function, where it started, whether it
+// produced a term (rather than a parse error), where it stopped, whether it is confident in that
+// position, and how many syntax errors the term it produced carries.
+#[derive(Clone, Debug)]
+pub struct MemoRecord {
+    pub nonterminal: String,
+    pub start: usize,
+    pub ok: bool,
+    pub next: usize,
+    pub confident: bool,
+    pub errors: usize,
 }
 
 pub fn reset() {
@@ -32,6 +49,40 @@ pub fn memo_hit() {
 
 pub fn hole_opened() {
     HOLES_OPENED.with(|c| c.set(c.get() + 1));
+}
+
+// Start recording memo table results (and forget those recorded so far).
+pub fn memo_log_start() {
+    MEMO_LOG.with(|log| *log.borrow_mut() = Some(vec![]));
+}
+
+// Stop recording and hand over what was recorded.
+pub fn memo_log_take() -> Vec<MemoRecord> {
+    MEMO_LOG.with(|log| log.borrow_mut().take().unwrap_or_default())
+}
+
+// Called when a parsing function stores its result. The number of errors is only computed when
+// recording is on.
+pub fn memo_store(
+    nonterminal: &str,
+    start: usize,
+    ok: bool,
+    next: usize,
+    confident: bool,
+    errors: impl FnOnce() -> usize,
+) {
+    MEMO_LOG.with(|log| {
+        if let Some(records) = log.borrow_mut().as_mut() {
+            records.push(MemoRecord {
+                nonterminal: nonterminal.to_owned(),
+                start,
+                ok,
+                next,
+                confident,
+                errors: errors(),
+            });
+        }
+    });
 }
 
 pub fn memo_entries() -> u64 {
